@@ -6,11 +6,11 @@ UPDATE_ALL = [func("bt.core.StrategyBase.update", variant=v) for v in ("flat", "
 ID = "C03"
 META = {
     "assumptions": ['A-REAL', 'A-COMM', 'A-T', 'A-IND', 'A-CYTHON', 'A-SOLVER', 'A-ENGINE'],
-    "explanation": "update proved to reset net flows / last value / last price exactly on a date change and to set price' = last_price*(1 + value/(last_value+net_flows) - 1) whenever it rewrites, to leave the price unchanged otherwise, and to raise ZeroDivisionError exactly on a zero base with non-zero value; adjust proved to add to net flows iff flow; trades proved never to touch net flows; algebraic lemmas (pure flow leaves the index, fees and P&L move it, scale invariance, first row 100) from the recurrence clause.",
+    "explanation": "update proved to reset net flows / last value / last price exactly on a date change and to set price' = last_price*(1 + value/(last_value+net_flows) - 1) whenever the value, the notional value or the date's flows moved since the last update of the date (clause taken from the property, refuted by the code before fix c60ffe2), to leave the price unchanged otherwise, and to raise ZeroDivisionError exactly on a zero base with non-zero value; adjust proved to add to net flows iff flow; trades proved never to touch net flows; algebraic lemmas (pure flow leaves the index, fees and P&L move it, scale invariance, first row 100) from the recurrence clause.",
 }
 MANIFEST_ENTRY = {
     "level_text": 'Deductive proof of the recurrence, the resets and the flow accounting for all inputs; flow-neutrality and scale-invariance as lemmas over the proved recurrence.',
-    "level_note": "Reals not floats; Backtest.run's opening call order (setup; adjust(initial capital) as a flow; update(dates[0])) is proved on its body; scale invariance through SecurityBase.allocate's isclose exit (absolute 1e-8) is not homogeneous and not claimed.",
+    "level_note": "Reals not floats; Backtest.run's opening call order (setup; adjust(initial capital) as a flow; update(dates[0])) is proved on its body; scale invariance through SecurityBase.allocate's isclose exit (absolute 1e-8) is not homogeneous and not claimed; the bounded stand-in c03_index replays random histories (flows, non-flow adjustments, an inflow with an equal loss, allocations, redundant updates, capital multiples) on real objects.",
     "technique": "contract-based deductive verification: VCs from the real AST (pyvc) discharged by z3/cvc5; loop invariants with ghost sums; lemmas over contract clauses",
 }
 
@@ -20,9 +20,16 @@ def tasks(tier, seed):
         func("bt.backtest.Backtest.run"),
         *UPDATE_ALL,
         func("bt.core.StrategyBase.adjust"),
+        func("bt.core.StrategyBase.rebalance"),     # scale invariance: a non-zero target always trades weight x base minus the holding, whatever the size (no currency threshold)
         dict(kind="custom", module="props.lemmas", fn="c03_index_lemmas"),
         dict(kind="custom", module="props.lemmas", fn="c07_trade_lemmas"),
+        dict(kind="custom", module="props.bounded", fn="run_script", script="c03_index", seed=seed, n=40 if tier == "quick" else 1500, props=["C03"]),
     ]
+
+
+def post(results, tier, seed):
+    b = [r["bounded"] for r in results if r.get("bounded")]
+    return None, dict(bounded_stand_ins=b, bounded_note="real operation histories on the interpreted scratch copy (float level, scale invariance, placement of redundant updates); never counted in obligations/discharged")
 
 
 def replay(o):
